@@ -7,6 +7,66 @@ HERE = os.path.dirname(os.path.abspath(__file__))
 ALL = ["C%02d" % i for i in range(1, 18)]
 
 CHECKS = {
+    "C02": dict(
+        category="model_checking",
+        text="Asm.tla is the reference encoder (instruction table, layout, label resolution). Every instruction form x operand shape x register "
+             "(1 100+ shapes) is placed after preceding directives with backward / forward / mixed-case label references and .EQU constants, plus random "
+             "multi-line programs; each is parsed and compiled by the real code and TLC compares every line's bytes, the image and the settings with "
+             "Asm!Assemble(Mrasm!ParseText(text).ast).",
+        design_ref="DESIGN.md section 3 C02",
+        note="Trusted: TLC; Asm.tla as the transcription of the instruction table; harness AST/bytecode projection. Quick: one context per shape and variant "
+             "(rotating with the seed); thorough: all 13 contexts. Backward .ORG / oversize images have no reference (C06).",
+        technique="TLA+ reference assembler evaluated by TLC on every enumerated program and compared with the real translator's output",
+    ),
+    "C03": dict(
+        category="model_checking",
+        text="Mrasm.tla states the language at character level with a three-valued verdict and the AST. Grammar-derived programs (every form, radix, "
+             "boundary value, spacing/case variant), hand-picked token mutations, random character mutations and arbitrary Unicode strings are parsed by "
+             "the real parser under catch_unwind and judged by TLC: verdict, error class and the AST line by line.",
+        design_ref="DESIGN.md section 3 C03, Appendix C",
+        note="Trusted: TLC; Mrasm.tla's reading of the documented language incl. its explicit list of unspecified zones (only no-crash there); the "
+             "exploration engine for 'all strings' is the generator.",
+        technique="character-level TLA+ language definition evaluated by TLC on every generated text and compared with the real parser (verdict + AST)",
+    ),
+    "C06": dict(
+        category="model_checking",
+        text="Every text the real parser accepts (risk classes of the property, random and mutated programs, every instruction shape) is compiled, listed "
+             "and loaded under catch_unwind; TLC classifies each crash with Asm.tla (backward .ORG / oversize image / program with a reference encoding). "
+             "Crashes of programs with a reference encoding are violations; the two classes without one are known findings. `2a-emulator verify` then `run` "
+             "on a sample.",
+        design_ref="DESIGN.md section 3 C06, section 5",
+        note="Translator::compile has no error channel, so backward .ORG and oversize images are recorded as known findings (keyed by class).",
+        technique="generator-driven no-crash check with TLA+ (Asm.tla) classification of every crash",
+    ),
+    "C12": dict(
+        category="model_checking",
+        text="Runner.tla composed with Machine/Micro.tla is run by TLC over programs x budgets (incl. 0) x interrupt/reset cycle sets (cycle 0, N-1, N, "
+             "beyond the end) x inputs, with CyclesOk and the verification rule over 64 expectation sets; every configuration is executed by the real "
+             "RunnerConfig::run + verify (full machine projection, cycle count, all 64 outcomes) and a sample by the real command-line tool (printed "
+             "State/FE/FF/Cycles, exit status, three radices, unreadable/unparsable files).",
+        design_ref="DESIGN.md section 3 C12",
+        note="Trusted: TLC; programs are given to the tool as .DB lines; which mismatch is reported first is informational.",
+        technique="TLC enumeration of run configurations on the TLA+ run loop + replay through the real library and CLI",
+    ),
+    "C16": dict(
+        category="model_checking",
+        text="Accepted programs are rendered by the real Display and re-parsed by the real parser; TLC requires the rendering to be accepted by Mrasm.tla "
+             "with the identical AST and header comment, and the real re-parse to return an equal program.",
+        design_ref="DESIGN.md section 3 C16",
+        note="Trusted: TLC; Mrasm.tla; harness projection; generator as exploration engine.",
+        technique="TLC judges the real rendering with the TLA+ language definition (round trip on the spec side and on the code side)",
+    ),
+    "C17": dict(
+        category="model_checking",
+        text="Tui.tla models the line editor, completion, history, notification, command language and session keys. TLC explores all key sequences up to "
+             "length 3 (thorough 4) over 21 keys with EditorOk; each is typed into the real session (real handle_event, real Interface drawn after every key) "
+             "and the editor compared; command lines (all commands, radices, case/spacing, values around 255/256, trailing garbage) are submitted and "
+             "validated by TraceTui incl. the machine effect; random key streams at 8 sizes and a sweep over all terminal sizes for 4 states.",
+        design_ref="DESIGN.md section 3 C17, Appendix D",
+        note="Trusted: TLC; Tui.tla's reading of the documented commands; TestBackend; debug-profile binary (overflow checks on). Unspecified: float spellings "
+             "beyond digits[.digits<=3], 0X/0B, successful load, which candidate BackTab selects, file-name completion.",
+        technique="TLC BFS over key sequences replayed into the real TUI + TLA+ trace validation of scripted sessions",
+    ),
     "C04": dict(
         category="model_checking",
         text="TLC runs two main x interrupt-routine programs on Micro.tla (control store from the tree) with the key pressed before EVERY clock cycle "
